@@ -36,3 +36,13 @@ func (s *SessionManager) VerifForgetBridge(tunnelID string) *TunnelBridge {
 	s.bridgeLock.Unlock()
 	return b
 }
+
+// VerifAddr returns the address the cross-node listener actually listens on (port 0 = chosen by the kernel).
+func (l *CrossNodeListener) VerifAddr() string {
+	l.mu.Lock()
+	defer l.mu.Unlock()
+	if l.listener == nil {
+		return ""
+	}
+	return l.listener.Addr().String()
+}
